@@ -62,7 +62,8 @@ type fwdObs struct {
 	Msgs     []fwdMsg `json:"msgs"`   // requests the reference parser found on the backend wire
 	Leftover int      `json:"leftover"`
 	ParseErr string   `json:"parse_err"`
-	WellForm bool     `json:"wellformed"` // header block: CRLF line ends only, no CR/LF/NUL inside lines, token names
+	WellForm bool     `json:"wellformed"` // NoCtl and every field name is a token
+	NoCtl    bool     `json:"noctl"`      // request line of 3 parts; no CR/LF/NUL/DEL inside the request line or a header line
 	Raw      string   `json:"raw"`
 	Panic    string   `json:"panic,omitempty"`
 }
@@ -75,20 +76,20 @@ func isTokenByte(c byte) bool {
 }
 
 // lexHeaderBlock splits the first message's header block strictly at CRLF.
-func lexHeaderBlock(raw []byte) (fields [][]string, well bool) {
+func lexHeaderBlock(raw []byte) (fields [][]string, well, noctl bool) {
 	end := bytes.Index(raw, []byte("\r\n\r\n"))
 	if end < 0 {
-		return nil, false
+		return nil, false, false
 	}
 	lines := strings.Split(string(raw[:end]), "\r\n")
-	well = true
+	well, noctl = true, true
 	for i, ln := range lines {
-		if strings.ContainsAny(ln, "\r\n\x00") {
-			well = false
+		if strings.ContainsAny(ln, "\r\n\x00\x7f") {
+			well, noctl = false, false
 		}
 		if i == 0 {
 			if len(strings.Split(ln, " ")) != 3 {
-				well = false // request-line = method SP target SP version
+				well, noctl = false, false // request-line = method SP target SP version
 			}
 			continue
 		}
@@ -106,7 +107,7 @@ func lexHeaderBlock(raw []byte) (fields [][]string, well bool) {
 		}
 		fields = append(fields, []string{name, strings.Trim(ln[k+1:], " \t")})
 	}
-	return fields, well
+	return fields, well, noctl
 }
 
 func analyseBackend(raws [][]byte, o *fwdObs) {
@@ -118,13 +119,19 @@ func analyseBackend(raws [][]byte, o *fwdObs) {
 	if len(o.Raw) > 2000 {
 		o.Raw = o.Raw[:2000]
 	}
-	o.WellForm = true
+	o.WellForm, o.NoCtl = true, true
 	for _, raw := range raws {
+		if len(raw) == 0 {
+			continue // connection opened, nothing written
+		}
 		br := bufio.NewReader(bytes.NewReader(raw))
 		first := true
-		lexed, well := lexHeaderBlock(raw)
+		lexed, well, noctl := lexHeaderBlock(raw)
 		if !well {
 			o.WellForm = false
+		}
+		if !noctl {
+			o.NoCtl = false
 		}
 		for {
 			if _, err := br.Peek(1); err != nil {
@@ -283,6 +290,9 @@ func (w *fwdWorker) clientH2(c *fwdCase, o *fwdObs) {
 		fields = append(fields, hpack.HeaderField{Name: tokenRepl.Replace(f.N), Value: tokenRepl.Replace(f.V)})
 	}
 	body := tokenRepl.Replace(c.Body)
+	if body != "" && !c.Chunked {
+		fields = append(fields, hpack.HeaderField{Name: "content-length", Value: fmt.Sprint(len(body))})
+	}
 	if err := h.WriteHeaders(id, fields, body == ""); err != nil {
 		o.Client = "write:" + err.Error()
 		return
